@@ -15,6 +15,10 @@ fn profile_for(prop: &str, variant: u64) -> Profile {
             p.w_up = 6;
             p.w_down = 4;
             p.w_pool_line = 5;
+            // the dispatched line must not depend on application calls arriving between two input bytes
+            p.w_write = 2;
+            p.w_set_prompt = 1;
+            p.inject_between_bytes = true;
         }
         "C05" => {
             p.w_char = 60;
@@ -23,6 +27,9 @@ fn profile_for(prop: &str, variant: u64) -> Profile {
             p.w_right = 8;
             p.w_enter = 3;
             p.max_keys = 100;
+            p.w_write = 1;
+            p.w_set_prompt = 1;
+            p.inject_between_bytes = true;
         }
         "C06" => {
             p.help_lines = true;
